@@ -181,6 +181,8 @@ type c03ChainRecipe struct {
 	// surfaced in an earlier round and that is still in the 20-round history, now on the current block; and fresh
 	// conditional work nobody can check (it stays in the history)
 	Byz bool `json:"byz"`
+	// OtherTypes: some results belong to upkeeps of a third trigger type
+	OtherTypes bool `json:"otherTypes"`
 }
 
 // c03Cfg is the effective report configuration (after ensureMinimumDefaults), for the model of Reports.
@@ -278,6 +280,9 @@ func c03RunChain(t *testing.T, rc c03ChainRecipe, em *Emitter, emit func(round i
 	}
 	newResult := func(logType bool) ocr2keepers.CheckResult {
 		res := genResult(r, genUpkeepID(r, logType), height-uint64(r.Intn(3)))
+		if rc.OtherTypes && r.Chance(8) { // an upkeep that is neither conditional nor log, plain trigger or with extension
+			res = genResultOtherType(r, height-uint64(r.Intn(3)))
+		}
 		res.Trigger.BlockHash = hashAt(uint64(res.Trigger.BlockNumber))
 		switch {
 		case rc.Heavy && r.Chance(85):
@@ -664,6 +669,7 @@ func c03ChainGen(r *Rng, i int) c03ChainRecipe {
 	}
 	rc.Reorgs = i%2 == 0
 	rc.Byz = i%5 != 1
+	rc.OtherTypes = i%3 != 0
 	return rc
 }
 
@@ -779,5 +785,6 @@ func c03ChainEdge() []c03ChainRecipe {
 		// short block windows with reorgs; an altered observation proposes surfaced conditional work again; n = 5, f = 1
 		{Seed: 9, N: 5, Rounds: 12, Burst: 3, PerRound: 2, Props: 3, PauseAt: -1, Round: -1, Reorgs: true, Byz: true},
 		{Seed: 10, N: 4, Rounds: 12, Burst: 3, PerRound: 2, Props: 2, PauseAt: -1, Round: -1, Batch: 3, Reorgs: true, Byz: true},
+		{Seed: 11, N: 4, Rounds: 8, Burst: 40, PerRound: 5, Props: 1, PauseAt: -1, Round: -1, Batch: 5, OtherTypes: true},
 	}
 }
